@@ -9,6 +9,7 @@ import warnings
 
 import numpy as np
 import mpmath as mp
+import scipy.linalg as sla
 from hypothesis import strategies as st
 
 from vlib import rngctl  # noqa: F401
@@ -146,6 +147,9 @@ def grad_cases(draw):
     case["kappa"] = draw(st.floats(0, 5))
     case["peak"] = draw(st.floats(0, 30))  # raises one datum far above the rest so that z << -3 elsewhere
     case["peak_i"] = draw(st.integers(0, 9))
+    # objective values in any units: the predictive sigma carries the units of the data
+    if draw(st.integers(0, 3)) == 0:
+        case["y_log_scale"] = draw(st.sampled_from([-12.0, -9.0, -6.0, 6.0, 9.0]))
     return case
 
 
@@ -190,6 +194,45 @@ def body_gradients(case, ctx):
         if abs(float(val) - plain) > 1e-10 * max(1.0, abs(plain)):
             raise Violation(f"gradient-value:{case['acq']}", f"opt_func_gradient value {float(val)!r} vs opt_func {plain!r}")
 
+        # ---- closed-form reference gradient, written from the documented formulas (squared-exponential kernel, constant mean):
+        # no stencil, so no stencil noise - this is the sharp oracle; the stencil below is independent of these formulas
+        kq = rk.ref_call(spec, q.reshape(1, d), X, th_cov, n)[0]
+        Kinv_k = sla.solve(K, kq, assume_a="sym")
+        alpha_r = sla.solve(K, y - th_mean[0], assume_a="sym")
+        var_r = a * a - float(kq @ Kinv_k)
+        if var_r > (1e-4 * a) ** 2:
+            sig_r = np.sqrt(var_r)
+            mu_r = th_mean[0] + float(kq @ alpha_r)
+            J = (X - q[None, :]).T / L[:, None] ** 2 * kq[None, :]
+            dmu, dvar = J @ alpha_r, -2.0 * (J @ Kinv_k)
+            dsig = dvar / (2 * sig_r)
+            ampr = max(1.0, (a / sig_r) ** 2)
+            rel = 1e-9 + 100 * kappa * EPS
+            e_mu = np.abs(J) @ np.abs(alpha_r) + 64 * EPS * float(np.max(np.abs(y))) / L       # what dmu can be off by, per unit rel
+            e_sig = (a / L) * (a / sig_r) * ampr
+            if case["acq"] == "UCB":
+                g_ref = -(dmu + case["kappa"] * dsig)
+                tol_ref = rel * (e_mu + case["kappa"] * e_sig) + 1e-300
+            elif case["acq"] == "MaxVar":
+                g_ref = -dvar
+                tol_ref = rel * (a * a / L) + 1e-300
+            else:
+                zr = mp.mpf(mu_r - acq.mu_max) / mp.mpf(sig_r)
+                Phi, phi = mp.ncdf(zr), mp.npdf(zr)
+                den = mp.mpf(sig_r) * (zr * Phi + phi)
+                g_ref = np.array([-float((Phi * mp.mpf(dmu[i]) + phi * mp.mpf(dsig[i])) / den) for i in range(d)])
+                # sensitivity to the round-off of z itself (mu is formed at the level of the data, sigma^2 by cancellation)
+                zf = abs(float(zr))
+                dz = rel * ampr * (1 + zf) + 64 * EPS * float(np.max(np.abs(y))) / sig_r
+                tol_ref = rel * (e_mu + e_sig) * (1 + zf) / sig_r + dz * (1 + zf) * (np.abs(g_ref) + float(np.max(np.abs(g_ref)))) + 1e-300
+            e_ref = float(np.max(np.abs(grad - g_ref) / tol_ref))
+            ctx.ratio(f"gradient-closed-form:{case['acq']}", e_ref, 1.0)
+            if not e_ref <= 1:
+                i = int(np.argmax(np.abs(grad - g_ref) / tol_ref))
+                raise Violation(f"gradient-closed-form:{case['acq']}", f"d={d}, z={z:.4g}, sigma={sig[0]:.3g}, data scale {ys:.3g}: d opt_func/dx{i} = {grad[i]!r}, "
+                                                                      f"closed form {g_ref[i]!r} (tol {tol_ref[i]:.3g})")
+            ctx.event("closed-form-compared")
+
         def f(qq):
             with np.errstate(all="ignore"):
                 return float(acq.opt_func(qq))
@@ -204,7 +247,9 @@ def body_gradients(case, ctx):
             # sigma^2 = K_qq - v.v is formed by cancellation: its relative rounding error is eps*a^2/sigma^2, and
             # the objective depends on sigma through z^2/2 (EI) or sigma itself
             amp = max(1.0, (a / sig[0]) ** 2)
-            floor = 100 * kappa * EPS * amp * (abs(plain) + 1 + z * z) / h
+            # (the objective is dimensionless for -log EI, in units of the data for the confidence bound, of its square for max-variance)
+            obj_scale = {"EI": abs(plain) + 1 + z * z, "UCB": abs(plain) + a * (1 + case["kappa"]) + abs(mu[0]), "MaxVar": abs(plain) + a * a}[case["acq"]]
+            floor = 100 * kappa * EPS * amp * obj_scale / h
             # the predictive mean is formed at the level of the data (eps*max|y| absolute round-off, a staircase under the
             # stencil); the objective's sensitivity to it is (|z| + 1)/sigma for -log EI and 1 for the confidence bound
             sens = {"EI": (abs(z) + 1) / sig[0], "UCB": 1.0, "MaxVar": 0.0}[case["acq"]]
